@@ -72,6 +72,11 @@ class RecMultiply:
             inr = z3.BoolVal(True) if self.modulus is None else z3.And(zt(self.n0) >= 0, zt(self.n0) < self.modulus)
             path.prove(f"{self.top}/rec/depth", ZAtom(z3.Implies(inr, 2 * nt <= zt(self.n0))), kind="depth",
                        detail="argument at least halves: recursion depth <= bit_length(n)")
+            if self.modulus is not None:
+                # an out-of-range scalar is brought into [0, N) by ONE recursive call (n % N), whatever its size: a step that
+                # only decreases it (n - N) terminates too, but after n/N frames — beyond any recursion limit for wide scalars
+                path.prove(f"{self.top}/rec/depth", ZAtom(z3.Implies(z3.Not(inr), z3.And(nt >= 0, nt < self.modulus))), kind="depth",
+                           detail="range reduction: an out-of-range scalar lands in [0, N) in one step (depth <= bit_length(N) + 1)")
         k = nt if self.modulus is None else nt % self.modulus
         return pt.smul(SInt(k))
 
